@@ -840,6 +840,9 @@ class Interp:
       start = args[1] if len(args) > 1 else kwargs.get('start', 0)
       return [(i + start, x)
               for i, x in enumerate(self.iterate(args[0], node))]
+    if name == 'slice' and 1 <= len(args) <= 3 and all(
+            a is None or _is_int(a) for a in args):
+      return slice(*args)
     if name == 'reversed' and len(args) == 1:
       return list(reversed(self.iterate(args[0], node)))
     if name == 'zip':
